@@ -12,7 +12,7 @@ from ..loader import AnalysisError
 from .valeq import check_typed_identity, check_json_bytes, check_enum_distinct
 from .c16 import sibling_reference_sites
 from .ladders import (extract_ladder, check_ladder_order, repo_subclass_pairs, handler_ladder, dispatch_model, _bound_value, _literal_seq,
-                      table_entries, _Unsupported, subst, sequence_elements)
+                      table_entries, _Unsupported, subst, sequence_elements, resolve_callee)
 from . import partition_model as PM
 
 RL = "runner_local.memento_run_local"
@@ -543,6 +543,21 @@ def possible_values(fa, expr, at, _depth=0):
         return [expr]
     if isinstance(expr, ast.IfExp):
         return possible_values(fa, expr.body, at, _depth + 1) + possible_values(fa, expr.orelse, at, _depth + 1)
+    if isinstance(expr, ast.BoolOp):
+        return [v for x in expr.values for v in possible_values(fa, x, at, _depth + 1)]
+    if isinstance(expr, ast.Call) and _depth <= 3:
+        callee, _off = resolve_callee(fa, expr)
+        if callee is not None and callee.node is not fa.node:
+            try:
+                cfa = FA(fa.ck, callee)
+                out = []
+                for r in cfa.returns():
+                    if r.value is not None and cfa.nodes(r) and not A.is_none(r.value):
+                        out += possible_values(cfa, r.value, cfa.nodes(r)[0], _depth + 2)
+                if out:
+                    return out
+            except AnalysisError:
+                pass
     if isinstance(expr, ast.Name) and fa.df.is_local(expr.id):
         out = []
         for d in fa.df.reaching(at, expr.id):
@@ -647,7 +662,7 @@ def check_exhaustive(ck, R):
             worlds = [(k, kind, "actual") for k in D.named() + ["None", "<no class>"] for kind in ("exact", "sub")]
             for w in worlds:
                 for (kind, val) in D.outcome(w):
-                    if kind == "return" and val.startswith("ResultType.") and val.count(".") == 1:
+                    if kind == "return" and val.startswith("ResultType.") and val.split(".", 1)[1].isidentifier():
                         returned.add(val.split(".")[1])
     except _Unsupported:
         pass
